@@ -1440,11 +1440,16 @@ static int _handle_key(TickitWindow *win, TickitKeyEventInfo *info)
   TickitWindow **children = NULL;
   tickit_window_ref(win);
 
-  if(win->first_child && win->first_child->steal_input)
-    if(_handle_key(win->first_child, info))
-      goto done;
+  /* Only compared, never dereferenced again: it might be destroyed meanwhile */
+  TickitWindow *stealer = NULL;
 
-  if(win->focused_child)
+  if(win->first_child && win->first_child->steal_input) {
+    stealer = win->first_child;
+    if(_handle_key(stealer, info))
+      goto done;
+  }
+
+  if(win->focused_child && win->focused_child != stealer)
     if(_handle_key(win->focused_child, info))
       goto done;
 
@@ -1459,7 +1464,7 @@ static int _handle_key(TickitWindow *win, TickitKeyEventInfo *info)
     if(!_is_child(win, child))
       continue;
 
-    if(child == win->focused_child)
+    if(child == win->focused_child || child == stealer)
       continue;
 
     if(_handle_key(child, info))
